@@ -38,9 +38,9 @@ CASES = {"quick": 90, "thorough": 2500}
 NSHARDS = 16
 SHARD_TIMEOUT = {"quick": 900, "thorough": 3600}
 
-CATS = ["Float", "Int", "Shaped", "Bool", "Num", "Float32", "Key", "UInt8", "Inexact", "Integer", "Complex", "Real", "UInt", "Int8", "BFloat16", "UserCat", "UserFloat", "UserFloat"]
+CATS = ["Float", "Int", "Shaped", "Bool", "Num", "Float32", "Key", "UInt8", "Inexact", "Integer", "Complex", "Real", "UInt", "Int8", "BFloat16", "UserCat", "UserFloat", "UserFloat", "UserHalf", "UserHalf"]
 DIMS = ["", "a", "a b", "*v", "...", "_", "_ a", "... 3", "#a 2", "*#v b", "a+1", "_x *v", "n=3 a", "a _ ..."]
-ARRS = ["np", "jax", "any", "union", "pep604", "typevar_bound", "typevar_constr", "duck"]
+ARRS = ["np", "jax", "any", "union", "pep604", "typevar_bound", "typevar_constr", "duck", "ndarray_alias", "ndarray_alias_union"]
 
 USER_MODULE = '''
 import re
@@ -51,6 +51,9 @@ class UserCat(jaxtyping.AbstractDtype):
 
 class Float(jaxtyping.AbstractDtype):  # same NAME as an exported category, different meaning
     dtypes = ["float32", "float64"]
+
+class Half(jaxtyping.Float):  # derives from a BUILT-IN category and narrows it
+    dtypes = ["float16", "bfloat16"]
 '''
 
 
@@ -94,6 +97,14 @@ def arr_type(kind):
         return typing.TypeVar("T", np.ndarray, jax.Array)
     if kind == "duck":
         return real.Duck
+    if kind == "ndarray_alias":
+        import numpy.typing as npt
+
+        return npt.NDArray[np.float32]  # a NumPy alias parametrised with a dtype
+    if kind == "ndarray_alias_union":
+        import numpy.typing as npt
+
+        return typing.Union[npt.NDArray[np.int8], jax.Array]
     raise AssertionError(kind)
 
 
@@ -108,6 +119,10 @@ def category(name):
         import jtv_user_cats
 
         return jtv_user_cats.Float
+    if name == "UserHalf":
+        import jtv_user_cats
+
+        return jtv_user_cats.Half
     return getattr(jaxtyping, name)
 
 
@@ -145,7 +160,7 @@ def features(expr):
             f.add("anonymous_axis")
         if "*" in dims or "+" in dims or "#" in dims:
             f.add("special_axis")
-        if cat in ("UserCat", "UserFloat"):
+        if cat in ("UserCat", "UserFloat", "UserHalf"):
             f.add("user_category")
         if cat == "Shaped":
             f.add("any_dtype")
